@@ -110,3 +110,19 @@ else: v()
 finally: w()
 ''',
 ]
+
+# e5: sequences whose remaining tail keeps a separator after a cut (targets; positionals followed by keywords; class
+# bases followed by keywords; class patterns followed by keyword patterns), several per line
+EXTRA.append('''\
+first = second = third = fourth = 0
+obj.attr = table[key] = (p, q) = value
+log("text", level, count, sep=1, end=2)
+res = outer(inner(a, b, k=1), c, d, key=fn(x, y, z=0))
+class Shape(Base, Mixin, metaclass=Meta, flag=True): pass
+match point:
+    case Point(px, py, z=0, w=1): pass
+    case Pair(Point(ax, ay, t=2), other, name="n"): pass
+def params(a, b=1, *rest, c, d=2, **kw): return [a, b], {c: d, **kw}, (rest, kw)
+del first, second[0], third.attr
+import alpha, beta.gamma as bg, delta
+''')
